@@ -4,7 +4,7 @@ Every fact is read through the attributes the templates use.  FORD's two encodin
 unified here (DESIGN.md section 8, Appendix A):
   * names compared case-insensitively (lower-cased), type keywords lower-cased with blanks removed
   * `parameter` / `optional` / `intent` given on the declaration (flags) or by statement (attribute list)
-  * `dimension(...)` as attribute vs `name(...)` on the entity
+  * `dimension(...)` as attribute vs `name(...)` on the entity; an entity's own `*len` (kept by FORD after its dimensions) is its length
   * inherited components / bindings that correlate() prepends to a type are dropped (parent is not the type)
 """
 from __future__ import annotations
@@ -23,6 +23,24 @@ def _squash(s):
     return re.sub(r"\s+", "", str(s)).lower() if s is not None else None
 
 
+def _squash_code(s):
+    """Blanks outside character literals are not significant, blanks (and case) inside them are."""
+    if s is None:
+        return None
+    out, q = [], None
+    for ch in str(s):
+        if q:
+            out.append(" " if ch == "\xa0" else ch)
+            if ch == q:
+                q = None
+        elif ch in "'\"":
+            q = ch
+            out.append(ch)
+        elif not ch.isspace():
+            out.append(ch.lower())
+    return "".join(out)
+
+
 def _doc(e):
     d = getattr(e, "doc_list", None) or []
     if isinstance(d, str):
@@ -35,6 +53,10 @@ def variable(v, with_doc=True):
         return {"k": "var", "name": v.lower(), "unresolved": True}
     attribs = []
     dims = _squash(getattr(v, "dimension", "") or "")
+    strlen = _squash(getattr(v, "strlen", None))
+    m = re.fullmatch(r"((?:\(.*\))?)\*(.+)", dims or "")
+    if m:                       # `name*len` / `name(dims)*len`: FORD keeps the entity's own length next to its dimensions
+        dims, strlen = m.group(1), m.group(2)
     for a in getattr(v, "attribs", []) or []:
         a = _squash(a)
         m = re.fullmatch(r"dimension(\(.*\))", a)
@@ -50,12 +72,12 @@ def variable(v, with_doc=True):
         "k": "var", "name": _name(v),
         "type": _squash(getattr(v, "vartype", None)),
         "kind": _squash(getattr(v, "kind", None)),
-        "len": _squash(getattr(v, "strlen", None)),
+        "len": strlen,
         "proto": _name(proto[0]) if proto else None,
         "attribs": attribs, "dims": dims or "",
         "intent": _squash(getattr(v, "intent", "") or ""),
         "optional": optional, "parameter": parameter,
-        "initial": _squash(getattr(v, "initial", None)),
+        "initial": _squash_code(getattr(v, "initial", None)),
         "perm": getattr(v, "permission", None),
     }
     if with_doc:
